@@ -49,6 +49,17 @@ Step(e) ==
          /\ slots' = [s \in 1..e.nslots |-> RawSlot]
          /\ skip' = FALSE
          /\ errs' = errs
+    [] e.ev = "cmp" ->
+         \* self-contained: the event carries the owned values that were pushed for the two read items, so it is
+         \* judged even while the rest of a rejected run is skipped (this arm precedes the skip arm)
+         LET a == e.va
+             b == e.vb
+             want == LexCmp(a, b)
+             rev == LexCmp(b, a)
+         IN  IF e.panic THEN errs' = Err(e, "cmp-panicked") /\ UNCHANGED <<slots, skip>>
+             ELSE IF e.r.cmp = want /\ e.r.partial_cmp = want /\ e.r.rev_cmp = rev /\ (e.r.eq <=> want = "eq")
+                  THEN UNCHANGED <<slots, skip, errs>>
+                  ELSE errs' = Err(e, "cmp-differs-from-owned-order") /\ UNCHANGED <<slots, skip>>
     [] skip -> UNCHANGED <<slots, skip, errs>>
     [] e.ev = "push" ->
          LET sl == slots[e.s]
@@ -89,15 +100,6 @@ Step(e) ==
          IF e.panic
          THEN errs' = Err(e, "clear-panicked") /\ skip' = TRUE /\ UNCHANGED slots
          ELSE slots' = [slots EXCEPT ![e.s] = RawSlot] /\ UNCHANGED <<skip, errs>>
-    [] e.ev = "cmp" ->
-         LET a == slots[e.s].issued[e.i + 1].v
-             b == slots[e.s2].issued[e.i2 + 1].v
-             want == LexCmp(a, b)
-             rev == LexCmp(b, a)
-         IN  IF e.panic THEN errs' = Err(e, "cmp-panicked") /\ UNCHANGED <<slots, skip>>
-             ELSE IF e.r.cmp = want /\ e.r.partial_cmp = want /\ e.r.rev_cmp = rev /\ (e.r.eq <=> want = "eq")
-                  THEN UNCHANGED <<slots, skip, errs>>
-                  ELSE errs' = Err(e, "cmp-differs-from-owned-order") /\ UNCHANGED <<slots, skip>>
 
 Next == /\ l <= Len(Rec)
         /\ l' = l + 1
